@@ -574,6 +574,17 @@ func c10FreeAll(c *Ctx, cp *c10Copy) {
 		if p.End != "return" {
 			continue
 		}
+		// after the spill the list is empty: count 0 and no first node
+		if len(f.ParamNames) == 1 {
+			list := &wterm{Op: "param", Name: f.ParamNames[0]}
+			cnt, nxt := findStores(p, list, 0), findStores(p, list, 4)
+			if len(cnt) == 0 || !wIsConst(cnt[len(cnt)-1], 0) {
+				probs = append(probs, fmt.Sprintf("path %d returns without resetting the list's node count to 0", i))
+			}
+			if len(nxt) == 0 || !wIsConst(nxt[len(nxt)-1], 0) {
+				probs = append(probs, fmt.Sprintf("path %d returns without clearing the list's first-node link: the header still points at a block that now belongs to the variable-size ring, and the next spill releases it a second time", i))
+			}
+		}
 		inLoop := false
 		for _, cd := range p.Conds {
 			if cd.T.Op == "unknown" && strings.HasPrefix(cd.T.Name, "loop-head") {
